@@ -101,6 +101,35 @@ func auditBinary(bin, oldFile, newFile string) verdict {
 	return v
 }
 
+// cliShapes are further ways of asking the command line for the same audit:
+// the exit status is the verdict scripts act on, whatever else is on the line.
+var cliShapes = []string{"audit+gen-json", "gen-go-before-audit", "flag=value+gen", "recurse+verbose", "old-then-new", "new-then-old"}
+
+// cliShape runs one shape and returns the exit status, whether the output
+// holds the audit's own failure line, and the command line for the witness.
+func cliShape(bin, shape, oldFile, newFile, outDir string) (exit int, auditLine bool, bad string, cmdline string) {
+	var args []string
+	switch shape {
+	case "audit+gen-json":
+		args = []string{"--audit", oldFile, "--gen", "json", "--out", outDir, newFile}
+	case "gen-go-before-audit":
+		args = []string{"-out", outDir, "-gen", "go", "-audit", oldFile, newFile}
+	case "flag=value+gen":
+		args = []string{"-audit=" + oldFile, "-r", "-gen=json", "-out=" + outDir, newFile}
+	case "recurse+verbose":
+		args = []string{"-r", "-v", "-audit", oldFile, newFile}
+	case "old-then-new": // several files: the old program against itself, then the new one
+		args = []string{"-audit", oldFile, oldFile, newFile}
+	case "new-then-old":
+		args = []string{"-audit", oldFile, newFile, oldFile}
+	}
+	r := emit.Run(bin, filepath.Dir(newFile), 120*time.Second, args...)
+	if r.TimedOut {
+		bad = "timed out"
+	}
+	return r.ExitCode, strings.Contains(r.Stdout, auditFailedMarker), bad, "frugal " + strings.Join(args, " ")
+}
+
 func clip(s string, n int) string {
 	s = strings.TrimSpace(s)
 	if len(s) > n {
@@ -152,6 +181,7 @@ type result struct {
 	newDir   string
 
 	restyleRejected int
+	shapeRuns       int
 }
 
 type vio struct {
@@ -535,6 +565,34 @@ func evaluate(j *job, a *inproc, bin string, scratch string) *result {
 				}
 			}
 			verdicts["frugal -audit"] = bv
+			// one more command-line shape for the root pair, judged only where
+			// the plain invocation is right (a wrong plain verdict has its own
+			// signature): a breaking pair never exits 0, a compatible pair
+			// never exits non-zero because of the audit
+			if g == rootBase && bv.Bad == "" && (j.id/3)%2 == 0 {
+				shape := cliShapes[(j.id/6)%len(cliShapes)]
+				exit, line, bad, cmdline := cliShape(bin, shape, oldFile, newFile, filepath.Join(res.newDir, "zq-gen-out"))
+				res.shapeRuns++
+				var sig, what string
+				switch {
+				case bad != "":
+					res.vios = append(res.vios, vio{sig: "INCONCLUSIVE", what: cmdline + ": " + bad})
+				case strings.HasPrefix(expect, "fail") && bv.Fail && exit == 0:
+					sig = "C18:missed-breaking:cli:" + shape
+					what = fmt.Sprintf("%q exits 0 for a pair with a catalogued breaking edit (plain `frugal -audit old new` exits 1)", shape)
+				case expect == "pass" && !bv.Fail && exit != 0 && line:
+					sig = "C18:false-alarm:cli:" + shape
+					what = fmt.Sprintf("%q fails the audit of a compatible pair (plain `frugal -audit old new` exits 0)", shape)
+				}
+				if sig != "" {
+					var w map[string]interface{}
+					if wantWitness(sig, j.id) {
+						w = map[string]interface{}{"program": bp.ix, "job": j.id, "kind": j.kind, "expected": expect, "script": script, "command": cmdline, "exit": exit,
+							"old": readFiles(bp.oldDir, bp.p), "new": readFiles(res.newDir, np)}
+					}
+					res.vios = append(res.vios, vio{sig: sig, what: what, witness: w})
+				}
+			}
 		}
 		for _, src := range []string{"frugal -audit", "in-process Auditor"} {
 			v, ok := verdicts[src]
@@ -956,6 +1014,7 @@ func runC18() int {
 		}
 		run.Add("audits_in_process", r.audits)
 		run.Add("audits_through_binary", r.binRuns)
+		run.Add("audits_through_other_command_line_shapes", r.shapeRuns)
 		run.Add("binary_vs_inprocess_agree", r.binAgree)
 		run.Add("binary_vs_inprocess_disagree", r.binDis)
 		run.Add("edits_dropped_in_combination", r.dropped)
@@ -1006,6 +1065,7 @@ func runC18() int {
 	run.Set("pairs_by_label", labelCount)
 	run.Set("operators_applied", opCount)
 	run.Set("operator_sites_enumerated", opSites)
+	run.Set("command_line_shapes", cliShapes)
 	run.Set("operators_in_catalogue", len(catalogue))
 	run.Set("operators_exercised", len(opCount))
 	run.Set("skipped", skipWhy)
